@@ -30,7 +30,7 @@ func c02Scenarios(tier core.Tier) []scenario {
 	orcs := func() []chain.Oracle { return []chain.Oracle{chain.ConservationOracle{}} }
 	return []scenario{
 		{Name: "c02.amt", Universe: "U-amt", Depth: 5 + d, Orcs: orcs,
-			Menu: chain.Menu{Recv: true, Sync: true, WalkSome: true, Play: true, Restart: true, Submit: []string{"sA", "sA2", "sUnbalanced", "sFrozen"}, Mine: 1}},
+			Menu: chain.Menu{Recv: true, Sync: true, WalkSome: true, Play: true, Restart: true, Submit: []string{"sA", "sA2", "sUnbalanced", "sFrozen", "sPadTrail", "sPadLead"}, Mine: 1}},
 		{Name: "c02.3way", Universe: "U-3way", Depth: 5 + d, Orcs: orcs,
 			Menu: chain.Menu{Recv: true, Sync: true, WalkSome: true, Play: true, Restart: true, Mine: 1}},
 		{Name: "c02.family", Universe: "U-3way-honest", Depth: 6 + d, Orcs: orcs,
